@@ -15,17 +15,23 @@ package main
 // unicode says are letters / numbers: "L<cp>.<cp>,N<cp>" or "-".
 
 import (
+	"bufio"
+	"bytes"
 	"context"
 	"fmt"
+	"io"
+	"net"
 	"net/http"
 	"net/http/httptest"
 	"os"
 	"sort"
 	"strconv"
 	"strings"
+	"time"
 	"unicode"
 	"unicode/utf8"
 
+	"github.com/gobwas/ws"
 	"google.golang.org/genproto/googleapis/api/annotations"
 	"google.golang.org/genproto/googleapis/api/serviceconfig"
 	"google.golang.org/grpc"
@@ -340,15 +346,28 @@ func (cm *c01Mux) req(verb, path string) string {
 	r.URL.Path = path
 	r.URL.RawPath = ""
 	w := httptest.NewRecorder()
+	var rw http.ResponseWriter = w
+	var hj *c01Hijack
+	if verb == "WS" {
+		// a response writer that can be hijacked: the upgrade succeeds and the method is reached over a pipe, down
+		// which the client side sends one empty JSON message and a close frame
+		hj = newC01Hijack(w)
+		rw = hj
+	}
 	status := func() (st int) {
 		defer func() {
 			if p := recover(); p != nil {
 				st = -1
 			}
 		}()
-		cm.h.ServeHTTP(w, r)
+		cm.h.ServeHTTP(rw, r)
 		return w.Code
 	}()
+	if hj != nil {
+		if up := hj.finish(); up && status != -1 {
+			status = 200 // switched protocols: the call was handed to a method (or ended in a close frame)
+		}
+	}
 	if status == -1 {
 		return "panic,-,-"
 	}
@@ -360,6 +379,41 @@ func (cm *c01Mux) req(verb, path string) string {
 		meth = cm.rec.method
 	}
 	return fmt.Sprintf("%d,%s,%s", status, meth, c01Fields(cm.rec.msg))
+}
+
+// c01Hijack: a recorder whose connection can be taken over (http.Hijacker), backed by an in-memory pipe
+type c01Hijack struct {
+	*httptest.ResponseRecorder
+	srv, cli net.Conn
+	taken    bool
+	got      bytes.Buffer
+	done     chan struct{}
+}
+
+func newC01Hijack(w *httptest.ResponseRecorder) *c01Hijack {
+	h := &c01Hijack{ResponseRecorder: w, done: make(chan struct{})}
+	h.srv, h.cli = net.Pipe()
+	h.srv.SetDeadline(time.Now().Add(5 * time.Second))
+	h.cli.SetDeadline(time.Now().Add(5 * time.Second))
+	go func() { io.Copy(&h.got, h.cli); close(h.done) }()
+	go func() {
+		ws.WriteFrame(h.cli, ws.MaskFrameInPlace(ws.NewTextFrame([]byte("{}"))))
+		ws.WriteFrame(h.cli, ws.MaskFrameInPlace(ws.NewCloseFrame(ws.NewCloseFrameBody(ws.StatusNormalClosure, ""))))
+	}()
+	return h
+}
+
+func (h *c01Hijack) Hijack() (net.Conn, *bufio.ReadWriter, error) {
+	h.taken = true
+	return h.srv, bufio.NewReadWriter(bufio.NewReader(h.srv), bufio.NewWriter(h.srv)), nil
+}
+
+// finish closes the pipe and says whether the server switched protocols
+func (h *c01Hijack) finish() bool {
+	h.srv.Close()
+	<-h.done
+	h.cli.Close()
+	return h.taken && bytes.HasPrefix(h.got.Bytes(), []byte("HTTP/1.1 101"))
 }
 
 func c01RunRT(o *out, input string) {
@@ -415,6 +469,9 @@ var c01Verbs = []string{"GET", "POST", "PUT", "DELETE", "PATCH", "LIST", "*"}
 // c01Verb: a rule's verb; one in six is spelled as a custom kind in lower or mixed case ("get", "List", "hEAD"), which
 // the mux reads as the upper-case verb -- also when it looks for the binding another method already holds
 func c01Verb(r *rng) string {
+	if r.intn(8) == 0 {
+		return "WEBSOCKET" // the custom kind a WebSocket handshake is routed under
+	}
 	v := r.picks(c01Verbs)
 	if v == "*" || r.intn(6) != 0 {
 		return v
@@ -668,7 +725,10 @@ func c01ReqVerb(r *rng, ms []c01Method) string {
 	}
 	v := m.Bindings[r.intn(len(m.Bindings))].Verb
 	if v == "*" {
-		return r.picks([]string{"GET", "POST", "LIST"})
+		return r.picks([]string{"GET", "POST", "LIST", "WS"})
+	}
+	if v == "WEBSOCKET" && r.intn(4) > 0 {
+		return "WS" // a handshake (one time in four: a plain request whose method token is WEBSOCKET)
 	}
 	return v
 }
